@@ -306,6 +306,32 @@ def run(ctx: Context, R: Reporter):
     R.guard(rule_c, ctx, R, hc)
     R.guard(rule_d, ctx, R, gc)
     R.guard(rule_e, ctx, R, gc, hc)
+    R.guard(rule_f, ctx, R, gc, hc)
+
+
+def rule_f(ctx: Context, R: Reporter, gc, hc):
+    """C15.f  predictions are a function of the *last* fit: whatever the
+    clustering classes memoise across calls is reset by every method that
+    changes the fitted parameters (fit)."""
+    from ..memo import memo_rule
+
+    classes = [c for c in ctx.prog.classes.values() if c.module is hc.module]
+    memo_rule(ctx, R, "C15.f", classes, "predict() after a refit labels points with the components of an earlier fit (labels and fitted modes disagree)", min_memos=0)
+
+
+def _scale_memo_variant(with_reset: bool):
+    from ..variants import chain, insert_after, insert_before, replace_stmt
+
+    cl = "tempest/cluster.py"
+    H = "HierarchicalGaussianMixture"
+    steps = [
+        insert_after(cl, H + ".__init__", "self._data_max = None", "self._scale_memo = None"),
+        replace_stmt(cl, H + "._compute_gaussian_probabilities", "scale = self._data_max - self._data_min",
+                     "if self._scale_memo is None:\n    self._scale_memo = self._data_max - self._data_min\nscale = self._scale_memo"),
+    ]
+    if with_reset:
+        steps.append(insert_after(cl, H + ".fit", "self._data_max = np.max(X, axis=0)", "self._scale_memo = None"))
+    return chain(*steps)
 
 
 def variants():
@@ -314,6 +340,8 @@ def variants():
     cl = "tempest/cluster.py"
     H = "HierarchicalGaussianMixture"
     return [
+        Variant("f-scale-memo-never-reset", "bad", _scale_memo_variant(False), ["C15.f"], quick=True),
+        Variant("f-scale-memo-reset-benign", "benign", _scale_memo_variant(True)),
         Variant("a-cap-or-default", "bad", replace_stmt(cl, f"{H}.__init__", "self.max_iterations = max_iterations", "self.max_iterations = max_iterations or 1000"), ["C15.a"], quick=True),
         Variant("a-counter-conditional", "bad", replace_stmt(cl, f"{H}.fit", "iteration += 1", "if best_split is not None:\n    iteration += 1"), ["C15.a", "ANALYSIS-ERROR"]),
         Variant("a-loop-le", "bad", replace_expr(cl, f"{H}.fit", "iteration < self.max_iterations", "iteration <= self.max_iterations"), ["C15.a"], quick=True),
